@@ -151,7 +151,12 @@ CHECKS["C11"] = dict(
          "set (and non-empty strings); a load with validation that returns has run the whole validation on the result (induction over "
          "the tree entries); collecting mode is non-empty iff raising mode raises; a flag that is off exempts exactly its own "
          "configuration. Correspondence: schemas with required fields, logging validators and flags x trees/documents; the live "
-         "configuration (list items included) is walked after every returning validation.",
+         "configuration (list items included) is walked after every returning validation; required fields bound to unset / empty / set "
+         "variables; validators on item, key and value fields of typed containers."
+         " Continuation (Props/C11b.lean): several validators registered on one field are their composition in registration order — a "
+         "composition that returns means every registered validator was run on its predecessor's result and passed (chain_ok_iff_ran), it "
+         "rejects exactly when one of them rejects (chain_error_iff); the reading is regenerated from support.validator on every run "
+         "(source_chains_registrations) and the real decorator is compared with the model's chain over the validator catalogue.",
     note=CFG_NOTE + " The validator catalogue is implemented twice (Python/Lean). Items of configuration lists are checked at load/insert only.",
     technique="Lean 4 proof (characterisation of the validation pass; induction over tree entries) + model/implementation correspondence",
     design="6 C11")
